@@ -4,6 +4,7 @@ import (
 	"fmt"
 	"go/types"
 	"os"
+	"os/exec"
 	"sort"
 	"strings"
 	"time"
@@ -206,7 +207,16 @@ func New(prog *ssa.Program, opt Options) (*Engine, error) {
 		opt.TimeoutMs = 20000
 	}
 	if opt.SolverKind == "" {
-		opt.SolverKind = "z3"
+		opt.SolverKind = os.Getenv("GOSYM_SOLVER")
+	}
+	if opt.SolverKind == "" {
+		// z3 5.1.0 (z3-new) is the main solver: 4.8.12 rebuilds every live
+		// define-fun on each get-value (0.3 s per call with 6000 definitions).
+		// GOSYM_SOLVER=z3 selects 4.8.12 for cross-checking.
+		opt.SolverKind = "z3-new"
+		if _, err := exec.LookPath("z3-new"); err != nil {
+			opt.SolverKind = "z3"
+		}
 	}
 	if opt.CallDepth == 0 {
 		opt.CallDepth = 400
@@ -217,6 +227,9 @@ func New(prog *ssa.Program, opt Options) (*Engine, error) {
 	s, err := smt.New(opt.SolverKind, opt.TimeoutMs)
 	if err != nil {
 		return nil, err
+	}
+	if opt.SolverLog == "" {
+		opt.SolverLog = os.Getenv("GOSYM_SOLVER_LOG")
 	}
 	if opt.SolverLog != "" {
 		f, err := os.Create(opt.SolverLog)
@@ -322,6 +335,16 @@ func (e *Engine) Run(fn *ssa.Function) {
 	e.trace = e.trace[:0]
 	e.S.PopTo(0)
 	e.sdepth = 0
+	if e.S.NumDefined() > 0 {
+		// definitions left at depth 0 by an earlier function make every later
+		// model extraction slower (z3 4.8 rebuilds them per get-value): start
+		// each function on a fresh solver process
+		if s, err := smt.New(e.Opt.SolverKind, e.Opt.TimeoutMs); err == nil {
+			s.Stats, s.Log = e.S.Stats, e.S.Log
+			e.S.Close()
+			e.S = s
+		}
+	}
 	start := time.Now()
 	for {
 		e.runOnePath(fn)
@@ -777,6 +800,16 @@ func (e *Engine) checkWith(c *term.Term) smt.Result {
 		e.S2 = s2
 	}
 	e.Stats.SolverRouted++
+	if e.Stats.SolverRouted == 1 && os.Getenv("GOSYM_DEBUG_ROUTE") != "" {
+		culprit := c
+		for _, p := range e.pc {
+			if p.HasMul {
+				culprit = p
+				break
+			}
+		}
+		fmt.Fprintf(os.Stderr, "first routed query at %s: %v\n", e.where(), culprit)
+	}
 	e.S2.Push()
 	for _, p := range e.pc {
 		e.S2.Assert(p)
